@@ -48,35 +48,45 @@ pub fn detect_serde_usage(program: &Program) -> bool {
 
 /// Detect whether the program uses the `json_stringify` builtin.
 fn program_uses_json_stringify(program: &Program) -> bool {
-    for decl in &program.declarations {
-        match &decl.node {
-            Declaration::Function(func) => {
-                if body_uses_json_stringify(&func.body) {
-                    return true;
-                }
-            }
-            Declaration::Model(model) => {
-                for method in &model.methods {
-                    if let Some(body) = &method.node.body {
-                        if body_uses_json_stringify(body) {
-                            return true;
-                        }
-                    }
-                }
-            }
-            Declaration::Class(class) => {
-                for method in &class.methods {
-                    if let Some(body) = &method.node.body {
-                        if body_uses_json_stringify(body) {
-                            return true;
-                        }
-                    }
-                }
-            }
-            _ => {}
+    program.declarations.iter().any(|decl| match &decl.node {
+        Declaration::Function(func) => params_use_json_stringify(&func.params) || body_uses_json_stringify(&func.body),
+        Declaration::Model(model) => {
+            fields_use_json_stringify(&model.fields) || methods_use_json_stringify(&model.methods)
         }
-    }
-    false
+        Declaration::Class(class) => {
+            fields_use_json_stringify(&class.fields) || methods_use_json_stringify(&class.methods)
+        }
+        // Default method bodies of traits and methods of newtypes are emitted as Rust too.
+        Declaration::Trait(tr) => methods_use_json_stringify(&tr.methods),
+        Declaration::Newtype(nt) => methods_use_json_stringify(&nt.methods),
+        Declaration::Const(c) => expr_uses_json_stringify(&c.value.node),
+        _ => false,
+    })
+}
+
+fn methods_use_json_stringify(methods: &[Spanned<ast::MethodDecl>]) -> bool {
+    methods.iter().any(|method| {
+        params_use_json_stringify(&method.node.params)
+            || method.node.body.as_ref().is_some_and(|b| body_uses_json_stringify(b))
+    })
+}
+
+fn params_use_json_stringify(params: &[Spanned<ast::Param>]) -> bool {
+    params.iter().any(|p| {
+        p.node
+            .default
+            .as_ref()
+            .is_some_and(|d| expr_uses_json_stringify(&d.node))
+    })
+}
+
+fn fields_use_json_stringify(fields: &[Spanned<ast::FieldDecl>]) -> bool {
+    fields.iter().any(|f| {
+        f.node
+            .default
+            .as_ref()
+            .is_some_and(|d| expr_uses_json_stringify(&d.node))
+    })
 }
 
 fn body_uses_json_stringify(body: &[Spanned<Statement>]) -> bool {
@@ -88,17 +98,36 @@ fn stmt_uses_json_stringify(stmt: &Statement) -> bool {
         Statement::Expr(expr) => expr_uses_json_stringify(&expr.node),
         Statement::Assignment(assign) => expr_uses_json_stringify(&assign.value.node),
         Statement::CompoundAssignment(assign) => expr_uses_json_stringify(&assign.value.node),
-        Statement::FieldAssignment(assign) => expr_uses_json_stringify(&assign.value.node),
-        Statement::IndexAssignment(assign) => expr_uses_json_stringify(&assign.value.node),
+        Statement::ChainedAssignment(assign) => expr_uses_json_stringify(&assign.value.node),
+        Statement::FieldAssignment(assign) => {
+            expr_uses_json_stringify(&assign.object.node) || expr_uses_json_stringify(&assign.value.node)
+        }
+        Statement::IndexAssignment(assign) => {
+            expr_uses_json_stringify(&assign.object.node)
+                || expr_uses_json_stringify(&assign.index.node)
+                || expr_uses_json_stringify(&assign.value.node)
+        }
         Statement::TupleUnpack(unpack) => expr_uses_json_stringify(&unpack.value.node),
-        Statement::TupleAssign(assign) => expr_uses_json_stringify(&assign.value.node),
+        Statement::TupleAssign(assign) => {
+            assign.targets.iter().any(|t| expr_uses_json_stringify(&t.node))
+                || expr_uses_json_stringify(&assign.value.node)
+        }
         Statement::Return(Some(expr)) => expr_uses_json_stringify(&expr.node),
         Statement::If(if_stmt) => {
-            body_uses_json_stringify(&if_stmt.then_body)
+            expr_uses_json_stringify(&if_stmt.condition.node)
+                || body_uses_json_stringify(&if_stmt.then_body)
+                || if_stmt
+                    .elif_branches
+                    .iter()
+                    .any(|(cond, body)| expr_uses_json_stringify(&cond.node) || body_uses_json_stringify(body))
                 || if_stmt.else_body.as_ref().is_some_and(|b| body_uses_json_stringify(b))
         }
-        Statement::While(while_stmt) => body_uses_json_stringify(&while_stmt.body),
-        Statement::For(for_stmt) => body_uses_json_stringify(&for_stmt.body),
+        Statement::While(while_stmt) => {
+            expr_uses_json_stringify(&while_stmt.condition.node) || body_uses_json_stringify(&while_stmt.body)
+        }
+        Statement::For(for_stmt) => {
+            expr_uses_json_stringify(&for_stmt.iter.node) || body_uses_json_stringify(&for_stmt.body)
+        }
         _ => false,
     }
 }
@@ -184,41 +213,36 @@ fn expr_uses_json_stringify(expr: &Expr) -> bool {
 
 /// Detect whether async runtime is required
 pub fn detect_async_usage(program: &Program) -> bool {
-    for decl in &program.declarations {
-        match &decl.node {
-            Declaration::Function(func) => {
-                if func.is_async || body_uses_async(&func.body) {
-                    return true;
-                }
-            }
-            Declaration::Model(model) => {
-                for method in &model.methods {
-                    if method.node.is_async {
-                        return true;
-                    }
-                    if let Some(body) = &method.node.body {
-                        if body_uses_async(body) {
-                            return true;
-                        }
-                    }
-                }
-            }
-            Declaration::Class(class) => {
-                for method in &class.methods {
-                    if method.node.is_async {
-                        return true;
-                    }
-                    if let Some(body) = &method.node.body {
-                        if body_uses_async(body) {
-                            return true;
-                        }
-                    }
-                }
-            }
-            _ => {}
-        }
-    }
-    false
+    program.declarations.iter().any(|decl| match &decl.node {
+        Declaration::Function(func) => func.is_async || params_use_async(&func.params) || body_uses_async(&func.body),
+        Declaration::Model(model) => fields_use_async(&model.fields) || methods_use_async(&model.methods),
+        Declaration::Class(class) => fields_use_async(&class.fields) || methods_use_async(&class.methods),
+        // Default method bodies of traits and methods of newtypes are emitted as Rust too.
+        Declaration::Trait(tr) => methods_use_async(&tr.methods),
+        Declaration::Newtype(nt) => methods_use_async(&nt.methods),
+        Declaration::Const(c) => expr_uses_async(&c.value.node),
+        _ => false,
+    })
+}
+
+fn methods_use_async(methods: &[Spanned<ast::MethodDecl>]) -> bool {
+    methods.iter().any(|method| {
+        method.node.is_async
+            || params_use_async(&method.node.params)
+            || method.node.body.as_ref().is_some_and(|b| body_uses_async(b))
+    })
+}
+
+fn params_use_async(params: &[Spanned<ast::Param>]) -> bool {
+    params
+        .iter()
+        .any(|p| p.node.default.as_ref().is_some_and(|d| expr_uses_async(&d.node)))
+}
+
+fn fields_use_async(fields: &[Spanned<ast::FieldDecl>]) -> bool {
+    fields
+        .iter()
+        .any(|f| f.node.default.as_ref().is_some_and(|d| expr_uses_async(&d.node)))
 }
 
 fn body_uses_async(body: &[Spanned<Statement>]) -> bool {
@@ -235,14 +259,27 @@ fn stmt_uses_async(stmt: &Statement) -> bool {
         Statement::Expr(expr) => expr_uses_async(&expr.node),
         Statement::Assignment(assign) => expr_uses_async(&assign.value.node),
         Statement::CompoundAssignment(assign) => expr_uses_async(&assign.value.node),
-        Statement::FieldAssignment(assign) => expr_uses_async(&assign.value.node),
-        Statement::IndexAssignment(assign) => expr_uses_async(&assign.value.node),
+        Statement::ChainedAssignment(assign) => expr_uses_async(&assign.value.node),
+        Statement::FieldAssignment(assign) => {
+            expr_uses_async(&assign.object.node) || expr_uses_async(&assign.value.node)
+        }
+        Statement::IndexAssignment(assign) => {
+            expr_uses_async(&assign.object.node)
+                || expr_uses_async(&assign.index.node)
+                || expr_uses_async(&assign.value.node)
+        }
         Statement::TupleUnpack(unpack) => expr_uses_async(&unpack.value.node),
-        Statement::TupleAssign(assign) => expr_uses_async(&assign.value.node),
+        Statement::TupleAssign(assign) => {
+            assign.targets.iter().any(|t| expr_uses_async(&t.node)) || expr_uses_async(&assign.value.node)
+        }
         Statement::Return(Some(expr)) => expr_uses_async(&expr.node),
         Statement::If(if_stmt) => {
             expr_uses_async(&if_stmt.condition.node)
                 || body_uses_async(&if_stmt.then_body)
+                || if_stmt
+                    .elif_branches
+                    .iter()
+                    .any(|(cond, body)| expr_uses_async(&cond.node) || body_uses_async(body))
                 || if_stmt.else_body.as_ref().is_some_and(|b| body_uses_async(b))
         }
         Statement::While(while_stmt) => {
@@ -287,14 +324,25 @@ fn expr_uses_async(expr: &Expr) -> bool {
         Expr::MethodCall(receiver, _, args) => expr_uses_async(&receiver.node) || args.iter().any(call_arg_uses_async),
         Expr::Field(base, _) => expr_uses_async(&base.node),
         Expr::Index(base, index) => expr_uses_async(&base.node) || expr_uses_async(&index.node),
-        Expr::Slice(base, _) => expr_uses_async(&base.node),
+        Expr::Slice(base, slice) => {
+            expr_uses_async(&base.node)
+                || slice.start.as_ref().is_some_and(|e| expr_uses_async(&e.node))
+                || slice.end.as_ref().is_some_and(|e| expr_uses_async(&e.node))
+                || slice.step.as_ref().is_some_and(|e| expr_uses_async(&e.node))
+        }
+        Expr::Range { start, end, .. } => expr_uses_async(&start.node) || expr_uses_async(&end.node),
+        Expr::Yield(Some(e)) => expr_uses_async(&e.node),
         Expr::If(if_expr) => {
             expr_uses_async(&if_expr.condition.node)
                 || body_uses_async(&if_expr.then_body)
                 || if_expr.else_body.as_ref().is_some_and(|b| body_uses_async(b))
         }
         Expr::Match(expr, arms) => {
-            expr_uses_async(&expr.node) || arms.iter().any(|arm| match_body_uses_async(&arm.node.body))
+            expr_uses_async(&expr.node)
+                || arms.iter().any(|arm| {
+                    arm.node.guard.as_ref().is_some_and(|g| expr_uses_async(&g.node))
+                        || match_body_uses_async(&arm.node.body)
+                })
         }
         Expr::Closure(_, body) => expr_uses_async(&body.node),
         Expr::List(items) | Expr::Tuple(items) | Expr::Set(items) => {
